@@ -21,7 +21,7 @@ ASSUMPTIONS = [
     "clientImpl.Close closes the PacketConn it got from the factory exactly once per call (part of the model as read; checked by the harness census on every history)",
     "configFunc / connectedFunc / ConnFactory are called back on the goroutine that holds rc.m (true of the code as read; the harness attributes boundary events to goroutines that way)",
 ]
-TRUSTED = ["modelled rather than verified: core/client/reconnect.go, the cleanup paths of connect() and wrapIfConnectionClosed in core/client/client.go (hand transcription in coq/model/C16_Reconnect.v); the log acceptor in coq/corr/C16_Corr.v (searches the hidden sections)"]
+TRUSTED = ["modelled rather than verified: core/client/reconnect.go, the cleanup paths of connect() and wrapIfConnectionClosed in core/client/client.go (hand transcription in coq/model/C16_Reconnect.v); the cut of the raw log into locked sections (coq/corr/C16_Corr.v group). The log acceptor itself (coq/corr/C16_Corr.v accepts, searches the hidden sections in a normal form) is proved SOUND for the LTS (C16_accepted_log_is_weak_trace / _is_run / _quiet_point / _log_monitors); its completeness is tested exhaustively on bounded runs (C16_acceptor_complete_bounded), not proved"]
 PER_SHARD = 400
 EXTRA_TARGETS = ["corr/C16_Corr.vo"]
 NG = 4
@@ -413,8 +413,9 @@ LEVEL_TEXT = ("Machine-checked Coq theorems over a labelled transition system tr
               "reports count+1, recoverable results change nothing, and Close is final; a variant that leaves rc.m while configFunc runs is refuted "
               "(two sockets at a quiescent point, a socket created after Close), which is why a whole reconnect() is one action. The model is tied to /repo on every run by replaying "
               "the boundary logs of real client/server histories against the LTS in the kernel (vm_compute) and by a regenerated "
-              "classification table.")
-LEVEL_NOTE = ("Trusted: Coq kernel + vm_compute; hand-written model and log acceptor (tie is sampled: ~50 histories quick; the acceptor cuts the raw log into locked sections itself and rejects overlapping sections); python/Go glue. "
+              "classification table. The acceptor used for that replay is proved sound: every accepted log is the visible projection of a strict run of the LTS from a start state, "
+              "so it inherits the census and close-final theorems (stated as log monitors).")
+LEVEL_NOTE = ("Trusted: Coq kernel + vm_compute; hand-written model; the log acceptor is proved sound, its completeness is only tested on all bounded runs (tie is sampled: ~50 histories quick; the acceptor cuts the raw log into locked sections itself and rejects overlapping sections); python/Go glue. "
               "No axioms. Not proved: quic-go's loss detection latency; that clientImpl.Close closes its PacketConn (census-checked).")
 TECHNIQUE = "Coq proof (invariant over all interleavings of an atomic-section LTS) + replay of recorded boundary logs against the LTS in vm_compute"
 DESIGN_REF = "DESIGN.md section 4 C16"
